@@ -7,12 +7,20 @@ PROP = "C04"
 CONSTS = []
 THEOREMS = {"SmVerif.Props.C04": ["SmVerif.C04." + t for t in (
     "c04_sorted_new", "c04_sort_of_sorted", "c04_lookup_safe", "c04_lookup_none_iff", "c04_lookup_greatest",
-    "c04_lookup_exact_first", "c04_lookup_admissible")]}
+    "c04_lookup_exact_first", "c04_lookup_admissible")],
+    # "whatever way a map was obtained ... non-decreasing generated positions": one theorem per producing operation
+    "SmVerif.Props.C02": ["SmVerif.C02.c02_doc_tokens"],                                  # decoding
+    "SmVerif.Props.C13": ["SmVerif.C13.c13_into_sourcemap_fields"],                        # builder (tokens = sortToks ...)
+    "SmVerif.Props.C09": ["SmVerif.C09.c09_sorted"],                                       # rewrite
+    "SmVerif.Props.C08": ["SmVerif.C08.c08_flatten_tokens"],                               # flatten
+    "SmVerif.Props.C10": ["SmVerif.C10.c10_sorted"]}                                       # adjust_mappings
 TRUSTED = BASE_TRUST + ["model: greatest_lower_bound (utils.rs) over std's binary_search_by (algorithm of Rust 1.95 mirrored literally), SourceMap::new's sort, lookup_token (types.rs)"]
 ASSUMPTIONS = ["slice::sort_unstable_by_key returns a sorted permutation and leaves a sorted slice unchanged", "Token::idx is observed through TokenIter::seek"]
 RULE = ("map.lookup: token lists with many tokens on one position, single/empty maps, given in position order when positions repeat and in arbitrary order otherwise; queries at every token position +-1, line +-1, (0,0), u32::MAX; "
         "exhaustive: all multisets of <= 4 positions over a 3x3 grid x all queries on a 4x4 grid (thorough; sampled in quick). map.dec for decoded maps (ordering). "
         "non-trivial = at least one query finds a token; distinct = distinct case line")
+BORROWED = ("bld.seq", "rw.run", "idx.flatten", "adj.run", "doc.dec", "doc.rt")
+MODEL_ONLY_PREFIXES = BORROWED
 EXHAUSTIVE = {"quick": False, "thorough": True}
 
 
@@ -60,4 +68,17 @@ def generate(tier, rng, hist):
     for _ in range(500 if tier == "quick" else 20000):
         nsrc, nn = rng.choice([1, 3]), rng.choice([0, 2])
         out.append("map.dec %d %d %s none" % (nsrc, nn, hx(render(rand_doc(rng, nsrc, nn, max_lines=8, max_segs=12)))))
+    # "whatever way a map was obtained": maps produced by the builder, rewrite, flatten, adjust_mappings and document
+    # decoding.  Their ops print the tokens in ITERATION order together with the harness's order / get_token(i)
+    # agreement marker; the models' outputs are ordered by theorem (THEOREMS above), so any disorder or get_token
+    # disagreement is an impl-vs-model difference.  Only the tie to the model is judged here (MODEL_ONLY_PREFIXES).
+    import importlib
+    per = 250 if tier == "quick" else 8000
+    for name in ("c13", "c09", "c08", "c10", "c02"):
+        m = importlib.import_module(name)
+        sub = {}
+        cases = [c for c in m.generate("quick" if tier == "quick" else "thorough", rng, sub) if c.startswith(BORROWED)]
+        step = max(1, len(cases) // per)
+        out += cases[::step][:per]
+        bump(hist, "produced_by_%s_ops" % m.PROP, min(per, len(cases)))
     return out
